@@ -332,6 +332,10 @@ def main(argv=None):
 
     mod = load(args.id)
     desper = import_desper()
+    import glob
+    for stale in glob.glob(os.path.join(
+            VERIF, 'replays', f'{mod.ID}-{args.tier}-*.json')):
+        os.remove(stale)
     t0 = time.time()
     total = Outcome()
     inconclusive = []
